@@ -85,10 +85,10 @@ def run_main(argv):
     return out.getvalue(), err.getvalue(), code
 
 
-def run_sub(argv, optimise=False, stdin=None, stdout=None):
+def run_sub(argv, optimise=False, stdin=None, stdout=None, env_extra=None):
     cmd = [common.PY] + (['-O'] if optimise else []) + ['-W', 'ignore', PELTOOL] + list(argv)
     try:
-        p = subprocess.run(cmd, stdout=stdout or subprocess.PIPE, stderr=subprocess.PIPE, env=common.child_env(), timeout=120)
+        p = subprocess.run(cmd, stdout=stdout or subprocess.PIPE, stderr=subprocess.PIPE, env=dict(common.child_env(), **(env_extra or {})), timeout=120)
     except subprocess.TimeoutExpired as e:
         return (e.stdout or b'').decode(errors='replace'), 'HANG: no exit within 120 s\n' + (e.stderr or b'').decode(errors='replace'), -999
     return (p.stdout.decode(errors='replace') if p.stdout is not None else ''), p.stderr.decode(errors='replace'), p.returncode
